@@ -226,6 +226,8 @@ def run(ck, tier):
     ck.guard(r2_execute, ck, cx)
     ck.guard(r3_mask_write, ck, cx)
     ck.guard(r4_context_siblings, ck, cx)
+    from .c18 import r6_table_isolation
+    ck.guard(r6_table_isolation, ck, cx, 'R5')
     ck.assume('histories are not decided: that a read returns the latest write follows from R2 + C18 shapes, it is not itself checked')
     ck.assume('only the in-memory ModbusSlaveContext is analysed, not arbitrary datastore implementations')
     return cx.idx
